@@ -222,6 +222,55 @@ where
     }
 }
 
+/// The nonce is a prover message like any other: with the difficulty declared as 0 (the work check is
+/// vacuous, `stark_commit` does not validate the configuration) the commit phase succeeds for every nonce,
+/// and the query indices - the only challenge after it - must change with it while nothing earlier does.
+fn nonce_at_zero_difficulty<L: LayoutTrait + GenericLayoutTrait>(pf: &ProofFile, rep: &mut Report)
+where
+    L::InteractionElements: serde::Serialize,
+{
+    let mut p0 = clone_proof(&pf.loaded.proof);
+    p0.config.proof_of_work.n_bits = 0;
+    let mut p1 = clone_proof(&p0);
+    p1.unsent_commitment.proof_of_work.nonce = p1.unsent_commitment.proof_of_work.nonce.wrapping_add(1);
+    let mut p2 = clone_proof(&p0);
+    p2.unsent_commitment.proof_of_work.nonce ^= 1 << 40;
+    let u = &pf.loaded.proof.unsent_commitment;
+    let (n_oods, n_fri, n_last) = (u.oods_values.len(), u.fri.inner_layers.len(), u.fri.last_layer_coefficients.len());
+    let base = match commit_phase::<L>(&p0) {
+        Ok(c) => c,
+        Err(e) => {
+            rep.eval("ordering:nonce-at-difficulty-0:commit-rejects-honest");
+            rep.violation("ordering:nonce-at-difficulty-0:commit-rejects", &format!("{}: stark_commit with the difficulty declared as 0 rejects the honest messages: {}", pf.name, e), json!({"kind": "nonce0", "proof": pf.name}));
+            return;
+        }
+    };
+    let b = challenge_list(&base, n_oods, n_fri, n_last);
+    for (tag, q) in [("+1", &p1), ("bit40", &p2)] {
+        rep.nontrivial_case(&format!("nonce0|{}|{}", pf.name, tag));
+        match commit_phase::<L>(q) {
+            Err(e) => {
+                rep.eval("ordering:nonce-at-difficulty-0:commit-rejects");
+                rep.violation("ordering:nonce-at-difficulty-0:commit-rejects", &format!("{}: difficulty 0, nonce {}: {}", pf.name, tag, e), json!({"kind": "nonce0", "proof": pf.name}));
+            }
+            Ok(c) => {
+                let now = challenge_list(&c, n_oods, n_fri, n_last);
+                let mut bad = Vec::new();
+                for ((name, v0, _), (_, v1, _)) in b.iter().zip(now.iter()) {
+                    let depends = name == "queries";
+                    if depends == (v0 == v1) {
+                        bad.push(name.clone());
+                    }
+                }
+                rep.eval(if bad.is_empty() { "ordering:nonce-at-difficulty-0:queries-follow-the-nonce" } else { "ordering:nonce-at-difficulty-0:STALE" });
+                if !bad.is_empty() {
+                    rep.violation("ordering:nonce:not-bound-at-difficulty-0", &format!("{}: difficulty 0, nonce {}: challenges {:?} do not depend on the nonce as they must", pf.name, tag, bad), json!({"kind": "nonce0", "proof": pf.name}));
+                }
+            }
+        }
+    }
+}
+
 /// Component level: traces_commit and fri_commit return their challenges directly.
 fn component_ordering<L: LayoutTrait>(pf: &ProofFile, rep: &mut Report)
 where
@@ -299,6 +348,7 @@ pub fn run(ctx: &Ctx, rep: &mut Report) {
                 ordering::<L>(pf, &c, ctx.quick(), rep);
             }
             component_ordering::<L>(pf, rep);
+            nonce_at_zero_difficulty::<L>(pf, rep);
         });
     }
     rep.extra.insert("recorded_proofs".into(), json!(files.iter().map(|f| f.name.clone()).collect::<Vec<_>>()));
@@ -335,6 +385,11 @@ pub fn replay(ctx: &Ctx, case: &Value) -> crate::props::ReplayResult {
                         }
                     }
                 }
+            });
+        }
+        Some("nonce0") => {
+            with_layout!(l.as_str(), L, {
+                nonce_at_zero_difficulty::<L>(&pf, &mut rep);
             });
         }
         Some("component") => {
